@@ -238,7 +238,7 @@ def c13(chk):
     quick = chk.tier == "quick"
     P = 1000  # ms
     scen, models, metas = [], [], []
-    n = 40 if quick else 400
+    n = 44 if quick else 400
     for i in range(n):
         rng = chk.rng
         k = rng.randrange(1, 5)
@@ -249,20 +249,23 @@ def c13(chk):
         maxout = rng.choice([1, 2]) if cap_binds else 100
         # the first few scenarios are fixed in kind: a small cap, some High peers without any address and some with one
         # (all up): the address-less ones are not due and must not stand in the way of the others
-        forced = i < (6 if quick else 40)
+        forced = i < (10 if quick else 40)
+        visiting = (10 if quick else 40) <= i < (13 if quick else 60)
         if forced:
             k = rng.randrange(3, 6)
             cap_binds, maxout = True, rng.choice([1, 1, 2])
-            n_less = rng.randrange(1, k)
+            n_less = rng.randrange(1, k) if i % 2 else k - 1        # (the order in which the table is walked differs from run to run)
         # in a third of the scenarios the dialing node has a connection limit which unknown peers fill (or which is 0):
         # the limit governs inbound admission only, background dialing goes on as without it (Dialer.v has no limit)
         limit = rng.choice([0, 1, 2]) if rng.random() < 0.35 else None
+        if (10 if quick else 40) <= i < (13 if quick else 60):
+            limit = None
         cmds = ["seed=%d delay=%d" % (rng.randrange(1 << 30), rng.choice([200, 1000, 5000])),
                 "node 0 ctick=%d ctimeout=400 backoff=%d maxbackoff=%d maxout=%d idle=600000%s" % (P, step, maxb, maxout, " maxconn=%d" % limit if limit is not None else "")]
         known_m = []
         up0 = {}
         for j in range(1, k + 1):
-            up0[j] = rng.random() < 0.75 or forced
+            up0[j] = rng.random() < 0.75 or forced or (visiting and j == 1)
             cmds.append("node %d key=%d idle=600000" % (j, 100 + j))
         for j in range(1, k + 1):
             if not up0[j]:
@@ -282,6 +285,9 @@ def c13(chk):
                     addrs.append(("%d" % o, o if o == j else 200 + o))  # another peer's address: identity mismatch
             if forced:
                 aff, addrs = "high", ([] if j <= n_less else [("%d" % j, j)])
+            if visiting and j == 1:
+                # scenarios of a fixed kind (the three after the forced ones): peer 1 is up, High, and known under dead addresses only
+                aff, addrs = "high", [("p%d" % (b - 91), b) for b in rng.sample([100, 101, 102, 103, 104], rng.choice([1, 2]))]
             cmds.append("known 0 %d %s addr=%s" % (j, aff, ",".join(a for a, _ in addrs) or "none"))
             known_m.append("%d:%s:%s" % (j, aff, ",".join(str(m) for _, m in addrs)))
         if rng.random() < 0.3 and not forced:
@@ -296,7 +302,7 @@ def c13(chk):
         # while the peer itself dials in and leaves again between two checks - which changes nothing about the back-off
         vis = [j for j in range(1, k + 1) if up0[j] and known_m[j - 1].split(":")[1] == "high" and known_m[j - 1].split(":")[2]
                and all(int(a) >= 100 and int(a) < 200 for a in known_m[j - 1].split(":")[2].split(","))] if not forced and limit is None else []
-        visitor = rng.choice(vis) if vis and rng.random() < 0.7 else None
+        visitor = 1 if (visiting and 1 in vis) else rng.choice(vis) if vis and rng.random() < 0.7 else None
         for t in range(1, ticks):
             if visitor is not None and t in (1, 2, 4) and up[visitor]:
                 # (490 ms in all, plus the few ms the handshake takes: the observation points may drift later, never earlier)
